@@ -273,11 +273,6 @@ def correspondence(ctx):
                 canons.append(split_canon)
                 inps.append(inp)
                 tags.append('step')
-                ops.append(f'n.letters {ct} {idx}')
-                objs.append(seen if isinstance(seen, str) else (seen['letters'] or '-'))
-                canons.append(lambda m, o: o)
-                inps.append(dict(inp, observe='candidate letters'))
-                tags.append('letters')
     streams.append(run_two_pass(s, ops, objs, inps, tags, canons))
 
     # --- wrong lengths (only those where numpy cannot broadcast)
